@@ -12,7 +12,8 @@ TARGETS = ["Base/Num.vo", "Base/Corr.vo", "C13/Model.vo", "C13/ModelKernels.vo",
            "C13/Corr.vo", "C13/Anchors.vo", "C13/ProofsGlue.vo", "C13/ProofsDrivers.vo", "C13/ProofsTables.vo",
            "C13/ProofsAnchors.vo", "C13/Spec2.vo", "C13/ProofsAnchors2.vo", "C13/Anchors2.vo", "C13/Spec3.vo", "C13/ProofsAnchors3.vo",
            "C13/Spec4.vo", "C13/Model4.vo", "C13/ProofsAnchors4.vo", "C13/Anchors4.vo",
-           "C13/Spec6.vo", "C13/ProofsAnchors6.vo", "C13/Anchors6.vo", "C13/Props.vo"]
+           "C13/Spec6.vo", "C13/ProofsAnchors6.vo", "C13/Anchors6.vo",
+           "C13/Model7.vo", "C13/Proofs7.vo", "C13/Anchors7.vo", "C13/Props.vo"]
 PROPS = ["C13/Props.v"]
 PARTIAL = ("No theorem about the accuracy of the Boost-ported kernels (gamma_incomplete_imp, igamma_temme_large, bessel_ik, "
            "temme_ik, CF1/CF2, digamma/trigamma/polygamma/zeta rational approximations) over all float64 arguments is attempted. "
@@ -71,7 +72,17 @@ PARTIAL = ("No theorem about the accuracy of the Boost-ported kernels (gamma_inc
            "anchors nothing is proved about bessel_i0_log / bessel_i1_log (their polynomial coefficients are not modelled). LogErfc at tiny |x| down to 1e-300 is "
            "certified relative to the result against the series model over R and (to 1e-100) against the erfc integral; LogErfc at x < -8 down to -MaxFloat64 and "
            "Digamma / Trigamma at 1/2 - m up to m = 2^50 are exact-outcome anchors decided in float64 (ln 2 within 2 ulp; reflection identities against Go's own value at "
-           "1/2 + m: differential, not certified).")
+           "1/2 + m: differential, not certified). "
+           "Round 7 (results at the edge of the binary64 range): proved over R for ALL a > 0, z > 0 that every guarded formula of regularised_gamma_prefix "
+           "(direct product, scaled power, log form; a < 10: product or its underflow fallback) has the value (z/L)^a e^(L-z)/sum, L = max(10, a), and that the split "
+           "exponential of the branch x >= 500 of bessel_i0 / bessel_i1 equals e^x P(1/x)/sqrt x with its partial product never above the result (Model7.v: R-models; "
+           "rounding, the `sum` (lower_gamma_series / upper_gamma_fraction) and WHICH guard fires in binary64 are not modelled; nothing is proved about overflow of the "
+           "float evaluation itself, only the R-identity the guards rely on). Tie: BesselI(0/1, x) within 16 ulp of the R-model at x = 500 .. 713.9 (the 5 coefficients are "
+           "hand-transcribed decimal text, not regenerated), MaxLogFloat64 = 709 / MinLogFloat64 = -709 exact. Certified anchors: GammaQ / GammaP / GammaPfirstDerivative at "
+           "integer a = 10 .. 200 with x - a = 708.5 .. 800 and at a = 650, x = 1950 (a ln(x/a) > 709.78 and x - a > 745 while Q ~ 1e-257), Q down to 1e-300, against the "
+           "nested closed form; BesselI(0/1/2, x), LogBesselI(0, x) at x in [709.8, 713.9] against the power series (quick: 7 points; thorough: 37). NOT certified: non-integer a "
+           "in the far tail (no closed form), the far LOWER tail and GammaPfirstDerivative at a ~ 1e4 (float64 differential references only, exact-outcome anchors), "
+           "underflow points (= 0 / = 1 exact outcomes decided in float64).")
 BOUNDARIES_EXPECTED = "corpus/C13/boundaries_expected.json"
 try:
     ROUND5_NEW = set(json.load(open(os.path.join(vlib.ROOT, "corpus/C13/round5_targets.json"))))
@@ -302,22 +313,31 @@ def run(ctx):
         ctx.violation({"obligation": "build of harness/c13 against the library", "log": blog[-3000:]}, False,
                       "tie lost: the C13 harness no longer builds against the library")
         return
-    cover_bin, clog = build_cover(ctx)
     covdir = os.path.join(ctx.dir, "covdata")
     os.makedirs(covdir, exist_ok=True)
     env_extra = {"GOCOVERDIR": covdir}
     n = 100 if ctx.tier == "quick" else 1000
     corpus = os.path.join(vlib.ROOT, "corpus/C13/corpus.jsonl")
     env = vlib.go_env(); env.update(env_extra)
-    if cover_bin:
-        # coverage is measured on a run that evaluates the anchors ONLY (no sweep, no exact cases)
-        vlib.sh([cover_bin, "--seed", str(ctx.seed), "--n", str(n), "--out", ctx.dir, "--tier", ctx.tier, "--extra", "anchors-only"],
-                timeout=600, cwd=vlib.ROOT, env=env)
+
+    def cover_job():
+        # round 7: the instrumented build and its run (report only) overlap with the harness run and the Coq shards
+        cb, _ = build_cover(ctx)
+        if cb:
+            # coverage is measured on a run that evaluates the anchors ONLY (no sweep, no exact cases; writes no files)
+            vlib.sh([cb, "--seed", str(ctx.seed), "--n", str(n), "--out", ctx.dir, "--tier", ctx.tier, "--extra", "anchors-only"],
+                    timeout=600, cwd=vlib.ROOT, env=env)
+        return cb
+    bg = cf.ThreadPoolExecutor(max_workers=2)
+    fut_cover = bg.submit(cover_job)
     cmd = [binary, "--seed", str(ctx.seed), "--n", str(n), "--out", ctx.dir, "--tier", ctx.tier, "--extra", "corpus=" + corpus]
     rc, out = vlib.sh(cmd, timeout=900, cwd=vlib.ROOT, env=vlib.go_env())
     if rc != 0:
         ctx.violation({"obligation": "C13 harness run", "log": out[-3000:]}, False, "harness failed on the implementation")
+        fut_cover.result(); bg.shutdown()
         return
+    # round 7: the anchor shards (Coq-Interval, the long pole) start now and overlap with the exact shards
+    fut_anch = bg.submit(eval_anchor_shards, numsorted(glob.glob(os.path.join(ctx.dir, "anchors_*.v"))))
     # ---- exact part
     meta = json.load(open(os.path.join(ctx.dir, "cases.meta.json")))
     vlib.merge_meta(ctx, meta)
@@ -337,7 +357,9 @@ def run(ctx):
     # ---- anchors
     anchors = vlib.load_jsonl(os.path.join(ctx.dir, "anchors.jsonl"))
     ameta = json.load(open(os.path.join(ctx.dir, "anchors.meta.json")))
-    ares = eval_anchor_shards(numsorted(glob.glob(os.path.join(ctx.dir, "anchors_*.v"))))
+    ares = fut_anch.result()
+    cover_bin = fut_cover.result()
+    bg.shutdown()
     okset = set(i for r in ares for i in r["ok"])
     failset = set(i for r in ares for i in r["fail"])
     goals = [a for a in anchors if not a.get("skip") and not a.get("nonfinite")]
